@@ -257,7 +257,13 @@ CONTRACTS = {
                               'forall(k, 0, self.num_lecturers, only_pairs(l_assignments[k], 0, k, _k))',
                               'forall(k, 0, self.num_lecturers, placed(l_assignments[k], 0, k, _k))']),
            1: dict(invariant=['len(lec_lines) == self.num_lecturers', 'forall(k, 0, _k, line_placed(lec_lines[k], k))', 'forall(k, _k, self.num_lecturers, len(lec_lines[k]) == 0)'])},
-    asserts={'loop1.body_end': [('the-assignee-tokens-follow-the-header-token', 'forall(t, 0, len(entry), kind(lec_lines[k][t + 1]) == kind(entry[t]) and value(lec_lines[k][t + 1]) == value(entry[t]), entry[t])')]},
+    asserts={'loop0.body_end': [('the-pair-just-visited-sits-at-the-end-of-its-lecturers-string',
+                                 'len(l_assignments[pair.lecturer_index]) >= 2 and (len(l_assignments[pair.lecturer_index]) - 2) % 2 == 0'
+                                 ' and kind(l_assignments[pair.lecturer_index][len(l_assignments[pair.lecturer_index]) - 2]) == 5'
+                                 ' and value(l_assignments[pair.lecturer_index][len(l_assignments[pair.lecturer_index]) - 2]) == pair.studentID'
+                                 ' and kind(l_assignments[pair.lecturer_index][len(l_assignments[pair.lecturer_index]) - 1]) == 10'
+                                 ' and value(l_assignments[pair.lecturer_index][len(l_assignments[pair.lecturer_index]) - 1]) == pair.projectID')],
+             'loop1.body_end': [('the-assignee-tokens-follow-the-header-token', 'forall(t, 0, len(entry), kind(lec_lines[k][t + 1]) == kind(entry[t]) and value(lec_lines[k][t + 1]) == value(entry[t]), entry[t])')]},
     returns=('joinstr', '', ('list', 'tok')),
     ensures=[('one-line-per-lecturer-in-lecturer-order', 'len(joined(result)) == self.num_lecturers'),
              ('each-line-names-the-lecturer-exactly-its-assignees-with-their-projects-occupancy-capacity-and-target', 'forall(k, 0, self.num_lecturers, line_ok(joined(result)[k], k))')]),
